@@ -17,6 +17,13 @@ def setup_stubs(eng):
         return Tup([base, ext], 'WithExt')
     eng.stub(r'^std::path::Path::with_extension::<', with_extension, 'Path::with_extension = constructor recording the extension')
 
+    # read-only queries about the file: no effect on the modelled state
+    eng.stub(r'(^|::)symlink_metadata::<|(^|::)fs::metadata::<', lambda e, s_, a, c: Enum('Result', z3.If(z3.Bool('stat.ok'), z3.BitVecVal(0, 64), z3.BitVecVal(1, 64)),
+                                                                               {0: Tup([Opaque('Metadata', 'md')]), 1: Tup([Opaque('io::Error', 'stat')])}),
+             'fs::symlink_metadata / fs::metadata = Ok(md) | Err, symbolic; a query without effect')
+    eng.stub(r'Metadata::file_type$', lambda e, s_, a, c: Opaque('FileType', 'ft'), 'Metadata::file_type')
+    eng.stub(r'FileType::is_symlink$|Metadata::is_symlink$', lambda e, s_, a, c: z3.Bool('file.is_symlink'), 'is_symlink = symbolic')
+
     def bool_default(eng, st, args, ci):
         return z3.BoolVal(False)
     eng.stub(r'^<bool as (std::default::)?Default>::default$', bool_default, 'bool::default() = false')
@@ -310,6 +317,48 @@ def run_backup(ctx, inject=None, unchanged=False, src=None, only_path=None):
     return res
 
 
+def run_fsize_limited(what):
+    """`rustfmt --backup` with RLIMIT_FSIZE = 1 KiB on a file whose formatted text is larger: whatever is written dies midway"""
+    import resource
+    bins = ensure_bins()
+    _seq[0] += 1
+    d = os.path.join(BUILD, 'scratch', 'c20l-%d-%d' % (os.getpid(), _seq[0]))
+    os.makedirs(d, exist_ok=True)
+    # the original fits under the limit (so a backup copy succeeds), the formatted text does not
+    body = 'fn f(){' + 'a();' * 150 + '}\n'
+    if what == 'regular':
+        root = os.path.join(d, 'x.rs')
+        open(root, 'w').write(body)
+        victim = root
+    else:
+        os.makedirs(os.path.join(d, 'real'))
+        tgt = os.path.join(d, 'real', 'foo_target.rs')
+        open(tgt, 'w').write(body)
+        os.symlink(tgt, os.path.join(d, 'foo.rs'))
+        root = os.path.join(d, 'lib.rs')
+        open(root, 'w').write('mod foo;\n')
+        victim = os.path.join(d, 'foo.rs')
+
+    def limit():
+        resource.setrlimit(resource.RLIMIT_FSIZE, (1024, 1024))
+        import signal
+        signal.signal(signal.SIGXFSZ, signal.SIG_IGN)
+    ref = subprocess.run([os.path.join(bins, 'rustfmt'), '--emit', 'stdout', '--quiet', victim if what == 'regular' else os.path.join(d, 'real', 'foo_target.rs')],
+                         capture_output=True, text=True, env=run_env(), timeout=60)
+    formatted = ref.stdout
+    r = subprocess.run([os.path.join(bins, 'rustfmt'), '--backup', root], capture_output=True, text=True, env=run_env(), timeout=60, preexec_fn=limit)
+    try:
+        now = open(victim).read()
+    except OSError:
+        now = None
+    res = None
+    if len(formatted) > 1024 and now is not None and now not in (body, formatted):
+        res = '%s file under RLIMIT_FSIZE=1024: after `rustfmt --backup` (exit %d) the file holds %d bytes, neither the original (%d) nor the formatted text (%d)' % (
+            what, r.returncode, len(now), len(body), len(formatted))
+    shutil.rmtree(d, ignore_errors=True)
+    return res
+
+
 def replay_alias():
     """`rustfmt --backup` on a file that is itself called x.tmp / x.bk: is the original still somewhere afterwards?"""
     bins = ensure_bins()
@@ -362,6 +411,11 @@ def make_replay(ctx, ops, what):
                 findings.append('%s: partial file %r' % (tag, x['F']))
             if 'error' in inj and x['exit'] == 0 and (x['F'] != formatted or x['F.bk'] != orig):
                 findings.append('%s: error not propagated (exit 0)' % tag)
+        # a write that dies midway (RLIMIT_FSIZE): the file itself must never be the one that is half written
+        for shape in ('regular', 'symlinked-module'):
+            x = run_fsize_limited(shape)
+            if x:
+                findings.append(x)
         # the bytes on disk are not the source-map text: BOM and CRLF originals
         for nm, src in (('crlf', 'fn   main( ) { let x=1 ; }\r\n'), ('bom', '\ufefffn   main( ) { let x=1 ; }\n')):
             x = run_backup(ctx, src=src)
